@@ -359,9 +359,30 @@ static inline int64_t local_pow(int b, int n)
     return res;
 }
 
+// strtod contract: a number has at least one digit in its mantissa
+// ([+-]digits[.digits] or [+-].digits); otherwise nothing is converted
+static int has_mantissa_digit(const char *s)
+{
+    if (*s == '+' || *s == '-')
+        s++;
+    if (*s == '.')
+        s++;
+    return *s >= '0' && *s <= '9';
+}
+
 float32_t igris_atof32(const char *str, char **pend)
 {
     uint8_t minus = 0;
+
+    // no digits ("", "-", ".", "+.", ".e5", "abc"): no conversion, the end is
+    // the start
+    if (!has_mantissa_digit(str))
+    {
+        if (pend)
+            *pend = (char *)str;
+        return 0;
+    }
+
     if (*str == '+')
     {
         str++;
@@ -447,6 +468,15 @@ float64_t igris_atof64(const char *nptr, char **endptr)
 
     if (!nptr)
     {
+        return 0.0;
+    }
+
+    // no digits ("", "-", ".", "+.", ".e5", "abc"): no conversion, the end is
+    // the start
+    if (!has_mantissa_digit(nptr))
+    {
+        if (endptr)
+            *endptr = (char *)nptr;
         return 0.0;
     }
 
